@@ -55,6 +55,23 @@ def handle (line : Json) : Json :=
     let iv : Option (Pick String) := if strD impl "r" == "skipped" then none else some (parsePick impl)
     Json.mkObj [("model", toJ m), ("path", Json.str ("slo/" ++ (match m with | none => "skipped" | some (.ok _ _) => "ok" | some .refused => "refused"))),
       ("spec_model", specSlo eps m), ("spec_impl", specSlo eps iv)]
+  | "slo_multi" =>
+    let targets := (arrD c "targets").map (fun t => (asArr t).map parseEp)
+    let m := sloAll truthyS (strList c "preferred") (str? c "expected") targets
+    let toJ : Option (Pick String) → Json := fun
+      | none => Json.mkObj [("r", "skipped")]
+      | some p => pickToJson p
+    let mj := match m with
+      | none => Json.mkObj [("r", "exception")]
+      | some cs => Json.mkObj [("r", "done"), ("per_entity", jarr (cs.map toJ))]
+    let implOuts : List (Option (Pick String)) := (arrD impl "per_entity").map fun j =>
+      if strD j "r" == "skipped" then none else some (parsePick j)
+    let specI := if strD impl "r" == "done" || !(arrD impl "per_entity").isEmpty then
+        -- whatever was sent before an exception must also be correctly addressed
+        specSloAll (targets.take implOuts.length) implOuts
+      else true
+    Json.mkObj [("model", mj), ("path", Json.str ("slo_multi/" ++ (match m with | none => "exception" | some _ => "done"))),
+      ("spec_model", match m with | none => true | some cs => specSloAll targets cs), ("spec_impl", specI)]
   | "verify_return" =>
     let disco := strList c "disco"
     let url := strD c "url"
